@@ -7,6 +7,7 @@ import (
 	"bytes"
 	"encoding/json"
 	"fmt"
+	"hash/fnv"
 	"math/rand"
 	"os"
 	"os/exec"
@@ -202,6 +203,44 @@ func genCfg(r *rand.Rand, documented bool) acCfg {
 		}
 		c.Fans = append(c.Fans, f)
 	}
+	// a clean configuration whose ONLY defect is a cycle that is entered from outside: lead-in -> a -> b (-> c) -> a, in every
+	// declaration order (lead-in first, in the middle, last)
+	if !documented && r.Intn(10) == 0 {
+		L := 2 + r.Intn(2)
+		c.Sensors = []acSensor{{ID: "s1", Nb: 1, HwOk: true, kind: []string{"file"}}}
+		mkc := func(id, kind string, members ...string) acCurve {
+			cu := acCurve{ID: id, Nb: 1, Steps: -1, PidOk: true, Kind: kind, Members: members}
+			if kind == "linear" {
+				cu.Sensor, cu.Members = "s1", []string{}
+			} else {
+				cu.Fn = pick(r, "sum", "maximum", "average")
+			}
+			return cu
+		}
+		cyc := []string{"c2", "c3", "c4"}[:L]
+		cs := []acCurve{mkc("c1", "linear")}
+		for j, id := range cyc {
+			ms := []string{cyc[(j+1)%L]}
+			if r.Intn(2) == 0 {
+				ms = append([]string{"c1"}, ms...)
+			} else {
+				ms = append(ms, "c1")
+			}
+			cs = append(cs, mkc(id, "function", ms...))
+		}
+		lead := mkc("c9", "function", "c1", cyc[r.Intn(L)])
+		switch r.Intn(3) {
+		case 0:
+			cs = append([]acCurve{lead}, cs...)
+		case 1:
+			cs = append(cs[:2], append([]acCurve{lead}, cs[2:]...)...)
+		default:
+			cs = append(cs, lead)
+		}
+		c.Curves = cs
+		c.Fans = []acFan{{ID: "f1", Nb: 1, AlgOk: true, HwOk: true, kinds: []string{"file"}, Curve: "c9", alg: "direct", hw: "index"}}
+		return c
+	}
 	// the order of declaration is arbitrary: members may be declared after the function curve that uses them, ids need not
 	// be sorted (a configuration is a set of entries)
 	if r.Intn(3) > 0 {
@@ -214,7 +253,30 @@ func genCfg(r *rand.Rand, documented bool) acCfg {
 
 func renderYaml(c acCfg, dir string) string {
 	var b strings.Builder
+	// everything the documentation marks as optional is present in some configurations and absent in others
+	// (deterministically: a hash of the entry and the shape of the configuration)
+	salt := fmt.Sprintf("%d/%d/%d", len(c.Sensors), len(c.Curves), len(c.Fans))
+	for _, cu := range c.Curves {
+		salt += cu.Kind[:min(1, len(cu.Kind))]
+	}
+	opt := func(key string) bool {
+		h := fnv.New32a()
+		h.Write([]byte(key + "|" + salt))
+		return h.Sum32()%2 == 0
+	}
 	fmt.Fprintf(&b, "dbPath: %s\n", filepath.Join(dir, "fan2go.db"))
+	if opt("top.rates") {
+		b.WriteString("tempSensorPollingRate: 300ms\nrpmPollingRate: 2s\ncontrollerAdjustmentTickRate: 250ms\n")
+	}
+	if opt("top.windows") {
+		b.WriteString("tempRollingWindowSize: 7\nrpmRollingWindowSize: 3\n")
+	}
+	if opt("top.init") {
+		b.WriteString("runFanInitializationInParallel: false\nmaxRpmDiffForSettledFan: 15\nfanResponseDelay: 1\n")
+	}
+	if opt("top.servers") {
+		b.WriteString("api:\n  enabled: false\n  host: localhost\n  port: 9001\nstatistics:\n  enabled: false\n  port: 9000\n")
+	}
 	b.WriteString("sensors:\n")
 	for _, s := range c.Sensors {
 		fmt.Fprintf(&b, "  - id: %s\n", s.ID)
@@ -223,7 +285,10 @@ func renderYaml(c acCfg, dir string) string {
 			case "file":
 				fmt.Fprintf(&b, "    file:\n      path: %s\n", filepath.Join(dir, "temp"))
 			case "cmd":
-				fmt.Fprintf(&b, "    cmd:\n      exec: %s\n      args: [\"x\"]\n", filepath.Join(dir, "sensor.sh"))
+				fmt.Fprintf(&b, "    cmd:\n      exec: %s\n", filepath.Join(dir, "sensor.sh"))
+				if opt("sensor.args." + s.ID) {
+					b.WriteString("      args: [\"x\", \"-y\"]\n")
+				}
 			case "hwmon":
 				idx := 1
 				if !s.HwOk {
@@ -292,14 +357,34 @@ func renderYaml(c acCfg, dir string) string {
 		if f.Curve != "" {
 			fmt.Fprintf(&b, "    curve: %s\n", f.Curve)
 		}
-		b.WriteString("    neverStop: true\n")
+		if opt("fan.neverStop." + f.ID) {
+			fmt.Fprintf(&b, "    neverStop: %v\n", opt("fan.neverStop.value."+f.ID))
+		}
+		if opt("fan.limits." + f.ID) {
+			b.WriteString("    minPwm: 30\n    maxPwm: 240\n")
+		}
+		if opt("fan.start." + f.ID) {
+			b.WriteString("    startPwm: 40\n")
+		}
+		if opt("fan.pwmMap." + f.ID) {
+			b.WriteString("    pwmMap:\n      0: 0\n      64: 128\n      255: 255\n")
+		}
 		for _, k := range f.kinds {
 			switch k {
 			case "file":
-				fmt.Fprintf(&b, "    file:\n      path: %s\n      rpmPath: %s\n", filepath.Join(dir, "pwm_"+f.ID), filepath.Join(dir, "rpm"))
+				fmt.Fprintf(&b, "    file:\n      path: %s\n", filepath.Join(dir, "pwm_"+f.ID))
+				if opt("fan.rpmPath." + f.ID) {
+					fmt.Fprintf(&b, "      rpmPath: %s\n", filepath.Join(dir, "rpm"))
+				}
 			case "cmd":
-				fmt.Fprintf(&b, "    cmd:\n      setPwm:\n        exec: %s\n        args: [\"%%pwm%%\"]\n      getPwm:\n        exec: %s\n      getRpm:\n        exec: %s\n",
-					filepath.Join(dir, "set.sh"), filepath.Join(dir, "get.sh"), filepath.Join(dir, "get.sh"))
+				fmt.Fprintf(&b, "    cmd:\n      setPwm:\n        exec: %s\n        args: [\"%%pwm%%\"]\n      getPwm:\n        exec: %s\n",
+					filepath.Join(dir, "set.sh"), filepath.Join(dir, "get.sh"))
+				if opt("fan.getPwmArgs." + f.ID) {
+					b.WriteString("        args: [\"--current\"]\n")
+				}
+				if opt("fan.getRpm." + f.ID) {
+					fmt.Fprintf(&b, "      getRpm:\n        exec: %s\n", filepath.Join(dir, "get.sh"))
+				}
 			case "hwmon":
 				b.WriteString("    hwmon:\n      platform: chipa\n")
 				switch f.hw {
@@ -519,6 +604,11 @@ func c11Child(out string, seed int64, n, from int) {
 							return
 						}
 						v, err := cv.Evaluate()
+						for retry := 0; retry < 3 && err != nil; retry++ {
+							// (an error that does not reproduce is the environment - a command that failed on a loaded
+							// machine -, not the configuration)
+							v, err = cv.Evaluate()
+						}
 						if err != nil || v < 0 || v > 255 {
 							ran = "evalerr"
 							msg = fmt.Sprint(v, err)
